@@ -848,6 +848,58 @@ fn falsify(seed: u64, n: usize) {
         let t = (r.bytes(n + 250), F128::new(f128v(r)), Dg32(D32::read_from_bytes(&r.bytes(32)).unwrap()));
         rt("(Vec<u8>,f128,ByteDigest<32>)", &format!("vec len {}", n + 250), &t, r, f);
     }
+    // every internal representation of a residue: zeros and other residues produced by wrap-around arithmetic
+    // (f62 keeps elements in [0, 2M) internally: ZERO also exists as the internal word M)
+    {
+        macro_rules! wrap_vals { ($F:ty, $m:expr, $rv:ident, $name:expr) => {{
+            let mut vals: Vec<(String, $F)> = vec![];
+            for _ in 0..reps.max(6) {
+                let v = $rv(r);
+                let v = if v == 0 { 1 } else { v };
+                let x = <$F>::new(v);
+                vals.push((format!("x+(-x) x={}", v), x + (-x)));
+                vals.push((format!("(-x)+x x={}", v), (-x) + x));
+                vals.push((format!("new(v)+new(M-v) v={}", v), <$F>::new(v) + <$F>::new($m - v)));
+                vals.push((format!("x-x x={}", v), x - x));
+                vals.push((format!("x*0 x={}", v), x * <$F>::ZERO));
+                vals.push((format!("(x+(-x))*x x={}", v), (x + (-x)) * x));
+                vals.push((format!("-(x+(-x)) x={}", v), -(x + (-x))));
+                vals.push((format!("(x+(-x)).double x={}", v), (x + (-x)).double()));
+                vals.push((format!("x+(-x)+ONE x={}", v), x + (-x) + <$F>::ONE));
+                vals.push((format!("new(M-v)+new(v)+new(v) v={}", v), <$F>::new($m - v) + <$F>::new(v) + <$F>::new(v)));
+                vals.push((format!("x*x.inv-ONE x={}", v), x * x.inv() - <$F>::ONE));
+            }
+            vals.push(("new(M-1)+ONE".into(), <$F>::new($m - 1) + <$F>::ONE));
+            vals.push(("ONE+new(M-1)".into(), <$F>::ONE + <$F>::new($m - 1)));
+            vals.push(("new(M-1)+new(2)".into(), <$F>::new($m - 1) + <$F>::new(2)));
+            vals.push(("-ZERO".into(), -<$F>::ZERO));
+            vals.push(("ZERO-ZERO".into(), <$F>::ZERO - <$F>::ZERO));
+            vals.push(("new(M)".into(), <$F>::new($m)));
+            vals.push(("new((M-1)/2)+new((M+1)/2)".into(), <$F>::new(($m - 1) / 2) + <$F>::new(($m + 1) / 2)));
+            for (d, e) in vals.iter() {
+                rt($name, &format!("wraparound {}", d), e, r, f);
+                rt(&format!("Quad<{}>", $name), &format!("wraparound coefficient {}", d), &QuadExtension::new(*e, <$F>::ONE), r, f);
+                rt(&format!("Quad<{}>", $name), &format!("wraparound coefficient (second) {}", d), &QuadExtension::new(<$F>::new(3), *e), r, f);
+                rt(&format!("Vec<{}>", $name), &format!("wraparound element {}", d), &vec![<$F>::ONE, *e, <$F>::new(5)], r, f);
+                rt(&format!("(u8,{},Option<{}>)", $name, $name), &format!("wraparound {}", d), &(7u8, *e, Some(*e)), r, f);
+            }
+            vals
+        }} }
+        let v62 = wrap_vals!(F62, M62, f62v, "f62");
+        for (d, e) in v62.iter() {
+            rt("Cube<f62>", &format!("wraparound coefficient {}", d), &CubeExtension::new(F62::ONE, *e, F62::new(2)), r, f);
+            let q = QuadExtension::new(*e, *e);
+            rt("Quad<f62>", &format!("wraparound both coefficients, squared {}", d), &(q * q + q), r, f);
+        }
+        // the rp62_248 digest is made of f62 elements: digests of many inputs (elements come out of the permutation arithmetic)
+        for i in 0..40u32 { let dg = <winter_crypto::hashers::Rp62_248 as Hasher>::hash(&i.to_le_bytes()); rt("ElementDigest(rp62_248 hash)", &format!("hash of {}", i), &dg, r, f); }
+        let v64 = wrap_vals!(F64, M64, f64v, "f64");
+        for (d, e) in v64.iter() {
+            rt("Cube<f64>", &format!("wraparound coefficient {}", d), &CubeExtension::new(F64::ONE, *e, F64::new(2)), r, f);
+            rt("ElementDigest(rp64_256)", &format!("wraparound limb {}", d), &ED::from([*e, F64::ONE, *e, F64::new(9)]), r, f);
+        }
+        let _ = wrap_vals!(F128, M128, f128v, "f128");
+    }
     // field / extension elements reached through arithmetic (not only through new()), digests
     for _ in 0..reps * 3 {
         let (a, b) = (F64::new(f64v(r)), F64::new(f64v(r)));
